@@ -103,6 +103,9 @@ func vGateway8() *Gateway {
 
 func VerifBatch() {
 	R := verifChoice("R", verifParam("rmax", 2)+1)
+	if R < verifParam("rmin", 0) {
+		verifAssume(false)
+	}
 	batchMode := R != 1 || verifChoice("array", 2) == 1
 	reqs := make([]vReq8, R)
 	for i := range reqs {
